@@ -1,4 +1,5 @@
 import BSVerif.Driver.Utf
+import BSVerif.Driver.UtfStream
 
 namespace BSVerif.Driver
 
@@ -6,7 +7,8 @@ def dispatch (toks : List String) (impl : Option String) : Option (String × Str
   match toks with
   | [] => none
   | t :: _ =>
-    if t.startsWith "utf." then Utf.handle toks impl
+    if t == "utf.detect" || t == "utf.read" || t == "utf.write" then UtfStream.handle toks impl
+    else if t.startsWith "utf." then Utf.handle toks impl
     else none
 
 end BSVerif.Driver
